@@ -22,13 +22,15 @@
      (closed (t N) REG-parts..) -> 0|1   (Sem.closedb on the variable-opened registry)
      (core (fns (CTY CEXP)+) (e CEXP))
         the core fragment of typed/Core.v: the extracted judgement `infer` and evaluator `eval`
-        CTY  ::= int | bin | (tup NAME|- CTY+) | (union CTY+)          NAME: a number
-        CEXP ::= (int z) | (bin len) | (tup NAME|- CEXP+) | (var x) | (get CEXP i) | (add CEXP CEXP)
+        CTY  ::= int | bin | (tup NAME|- (LABEL|- ..) CTY+) | (union CTY+)     NAME, LABEL: numbers;
+                 one label entry per field
+        CEXP ::= (int z) | (bin len) | (tup NAME|- (LABEL|- ..) CEXP+) | (var x) | (get CEXP i)
+               | (getl CEXP LABEL) | (add CEXP CEXP)
                | (len CEXP) | (let x CEXP CEXP) | (letas x CTY CEXP CEXP)
                | (case x ((CPAT CEXP)+) CEXP) | (call f CEXP)
-        CPAT ::= (pty CTY) | (ptup NAME|- (x|_)+)
+        CPAT ::= (pty CTY) | (ptup NAME|- (LABEL|- ..) (x|_)+)
         -> (ty CTY) (val CVAL) | (ty CTY) (val stuck) | (ty none)
-           CVAL ::= (i z) | (b len) | (t NAME|- CVAL+)
+           CVAL ::= (i z) | (b len) | (t NAME|- (LABEL|- ..) CVAL+)
 
    Integers and binary contents are not inspected by the judgement (Sem.Inh_int / Inh_bin hold
    for every z / b): the driver feeds 0 / the empty handle. Names and labels are interned to
@@ -210,20 +212,23 @@ let rec int_of_pos = function XH -> 1 | XO p -> 2 * int_of_pos p | XI p -> 2 * i
 let int_of_z = function Z0 -> 0 | Zpos p -> int_of_pos p | Zneg p -> - (int_of_pos p)
 
 let core_name s = if is_dash s then None else Some (nat_atom s)
+let core_shape n labs = match labs with
+  | Sexp.List ls -> (core_name n, List.map core_name ls)
+  | _ -> failwith "bad labels"
 
 let rec cty_of (s : Sexp.t) : cty =
   match s with
   | Sexp.Atom "int" -> TyInt
   | Sexp.Atom "bin" -> TyBin
-  | Sexp.List (Sexp.Atom "tup" :: n :: ts) -> TyTup (core_name n, List.map cty_of ts)
+  | Sexp.List (Sexp.Atom "tup" :: n :: labs :: ts) -> TyTup (core_shape n labs, List.map cty_of ts)
   | Sexp.List (Sexp.Atom "union" :: ts) -> TyUnion (List.map cty_of ts)
   | _ -> failwith "bad core type"
 
 let cpat_of (s : Sexp.t) : pat =
   match s with
   | Sexp.List [Sexp.Atom "pty"; t] -> PTy (cty_of t)
-  | Sexp.List (Sexp.Atom "ptup" :: n :: bs) ->
-    PTup (core_name n, List.map (fun b -> if Sexp.atom b = "_" then None else Some (nat_atom b)) bs)
+  | Sexp.List (Sexp.Atom "ptup" :: n :: labs :: bs) ->
+    PTup (core_shape n labs, List.map (fun b -> if Sexp.atom b = "_" then None else Some (nat_atom b)) bs)
   | _ -> failwith "bad core pattern"
 
 let rec cexp_of (s : Sexp.t) : exp =
@@ -232,7 +237,8 @@ let rec cexp_of (s : Sexp.t) : exp =
     (match h, a with
      | "int", [z] -> EInt (z_of_int (int_of_string (Sexp.atom z)))
      | "bin", [l] -> EBinLit (nat_atom l)
-     | "tup", n :: es -> ETup (core_name n, List.map cexp_of es)
+     | "tup", n :: labs :: es -> ETup (core_shape n labs, List.map cexp_of es)
+     | "getl", [e; l] -> EGetL (cexp_of e, nat_atom l)
      | "var", [x] -> EVar (nat_atom x)
      | "get", [e; i] -> EGet (cexp_of e, nat_atom i)
      | "add", [e1; e2] -> EAdd (cexp_of e1, cexp_of e2)
@@ -248,14 +254,15 @@ let rec cexp_of (s : Sexp.t) : exp =
   | _ -> failwith "bad core expression"
 
 let str_cname = function None -> "-" | Some n -> string_of_int (int_of_nat n)
+let str_shape (n, ls) = Printf.sprintf "%s (%s)" (str_cname n) (String.concat " " (List.map str_cname ls))
 let rec dump_cty = function
   | TyInt -> "int" | TyBin -> "bin"
-  | TyTup (n, ts) -> Printf.sprintf "(tup %s%s)" (str_cname n) (String.concat "" (List.map (fun t -> " " ^ dump_cty t) ts))
+  | TyTup (sh, ts) -> Printf.sprintf "(tup %s%s)" (str_shape sh) (String.concat "" (List.map (fun t -> " " ^ dump_cty t) ts))
   | TyUnion ts -> Printf.sprintf "(union%s)" (String.concat "" (List.map (fun t -> " " ^ dump_cty t) ts))
 let rec dump_cval = function
   | CInt z -> Printf.sprintf "(i %d)" (int_of_z z)
   | CBin l -> Printf.sprintf "(b %d)" (int_of_nat l)
-  | CTup (n, vs) -> Printf.sprintf "(t %s%s)" (str_cname n) (String.concat "" (List.map (fun v -> " " ^ dump_cval v) vs))
+  | CTup (sh, vs) -> Printf.sprintf "(t %s%s)" (str_shape sh) (String.concat "" (List.map (fun v -> " " ^ dump_cval v) vs))
 
 let core_fuel = nat_of_int 400
 
